@@ -159,5 +159,6 @@ pub fn run(tier: &str, seed: u64) -> Sink {
     sink.merge(crate::semi::run_punct(tier, seed));
     sink.merge(crate::semi::run_sugar(tier, seed));
     sink.merge(crate::semi::run_tablefield(tier, seed));
+    sink.merge(crate::semi::run_callarg(tier, seed));
     sink
 }
